@@ -34,6 +34,13 @@ def shapes(quick):
     out.append((['-c', '-o', 'out.o', 'a.c'], 1))
     out.append((['-o', 'prog', 'a.c', 'g.o', '-lm'], 2))
     out.append((['-E', '-o', 'out.i', 'a.c'], 1))
+    # inputs the driver does not build (objects, libraries) before, between and after inputs it builds: a failure of a LATER input must still
+    # remove the temporary objects of every earlier built one (seeded round 9: the clean-up loop stopped at the first unbuilt input)
+    for mix in (('g.o', 'd.s', 'd.s'), ('d.s', 'g.o', 'd.s'), ('d.s', 'd.s', 'g.o'), ('-lm', 'd.s', 'd.s'), ('g.o', 'd.s', '-lm', 'd.s'), ('g.o', 'c.qbe', 'd.s')):
+        out.append((list(mix), 3))
+    if not quick:
+        for mix in (('g.o', 'a.c', 'd.s'), ('-lm', 'c.qbe', 'c.qbe'), ('g.o', 'h.o', 'd.s', 'd.s'), ('d.s', 'g.o', 'd.s', 'g.o', 'd.s')):
+            out.append((list(mix), 3))
     if not quick:
         for trip in (('a.c', 'd.s', 'c.qbe'), ('d.s', 'd.s', 'd.s'), ('a.c', 'a.c', 'a.c'), ('c.qbe', 'a.c', 'g.o')):
             out.append((list(trip), 3))
